@@ -1,4 +1,5 @@
 import PromModel.Tsdb.Appendable
+import PromProofs.Admit
 /-
   C02 — Append admission and commit apply the documented ordering rules.
   Property theorems about the transcribed mechanism `PromModel/Tsdb/Appendable.lean`.
@@ -44,4 +45,104 @@ theorem appendable_table (k : Kind) (t : Int) (v : Nat) (s : View) (w : Window) 
     by_cases h5 : t ≥ w.headMaxt - w.oooWin <;> cases hh : s.hasHead <;>
     (have h1' : (t < w.minValid) = ¬ (t ≥ w.minValid) := by (apply propext; omega)) <;>
     simp [h1', h1, h2, h3, h4, h5] <;> omega
+example : InOrderOK .f 100 1 ⟨true, 100, .f, 1⟩ ⟨90, 120, 30⟩ := by simp [InOrderOK]
+example : DupZone .h 100 2 ⟨true, 100, .f, 2⟩ ⟨90, 120, 30⟩ := by simp [DupZone]
+
+/-- `dup_noop`: re-appending the newest in-order sample bit-identically (same kind, same value bits /
+    histogram identity) inside the appendable window is accepted as in-order at Append time and the
+    commit leaves the series — in-order samples and OOO chunks — unchanged. -/
+theorem dup_noop (w : Window) (cap : Nat) (s : Series) (x : Sample) (rest : List Sample)
+    (hs : s.inorder = x :: rest) (hw : x.t ≥ w.minValid) :
+    appendable x.kind x.t x.v s.view w = .ok .inOrder ∧ commitOne w cap s x = (s, none) := by
+  have hv : s.view = ⟨true, x.t, x.kind, x.v⟩ := by simp [Series.view, hs]
+  have h1 : appendable x.kind x.t x.v s.view w = .ok .inOrder := by
+    rw [(appendable_table _ _ _ _ _).1, hv]
+    exact ⟨hw, Or.inr (Or.inr ⟨rfl, rfl, rfl⟩)⟩
+  refine ⟨h1, ?_⟩
+  simp [commitOne, h1, Series.appendInOrder, hs]
+
+example : commitOne ⟨90, 120, 30⟩ 32 { inorder := [⟨100, .f, 7⟩, ⟨95, .h, 1⟩] } ⟨100, .f, 7⟩ =
+    ({ inorder := [⟨100, .f, 7⟩, ⟨95, .h, 1⟩] }, none) := by
+  exact (dup_noop _ _ _ _ _ rfl (by decide)).2
+
+/-- `ooo_insert_sorted_nodup`: for every insertion sequence, starting from the empty OOO chunk, the chunk
+    stays strictly sorted by time (hence no duplicate timestamp), and it contains exactly the *first*
+    sample offered for each timestamp (first writer wins). -/
+theorem ooo_insert_sorted_nodup (xs : List Sample) :
+    SortedStrict (insertAll [] xs) ∧
+    ∀ y, y ∈ insertAll [] xs ↔ xs.find? (fun z => z.t == y.t) = some y := by
+  obtain ⟨h1, h2⟩ := insertAll_spec [] xs trivial
+  exact ⟨h1, fun y => by simpa using h2 y⟩
+
+/-- a single `OOOChunk.Insert`: refused iff the timestamp is present; otherwise sorted insert -/
+theorem ooo_insert_step (l : List Sample) (x : Sample) (hs : SortedStrict l) :
+    (oooInsert l x = none ↔ ∃ y ∈ l, y.t = x.t) ∧
+    ∀ l', oooInsert l x = some l' → SortedStrict l' ∧ ∀ y, y ∈ l' ↔ y = x ∨ y ∈ l := by
+  refine ⟨⟨oooInsert_none, ?_⟩, fun l' h => ⟨(oooInsert_some hs h).1, (oooInsert_some hs h).2.1⟩⟩
+  rintro ⟨y, hy, e⟩
+  cases h : oooInsert l x with
+  | none => rfl
+  | some l' => exact absurd e ((oooInsert_some hs h).2.2 y hy)
+
+/-- `commit_eq_sequential` (one sample kind; float staleness markers excluded, see the witness below):
+    whatever batches the appender cut while the samples `xs` were appended, `Commit` applies them exactly
+    as `xs.length` single-sample commits in append order (`CommitAcc.apply` = re-run `appendable` against
+    the state left by the predecessors, then store in order / insert OOO / drop). -/
+theorem commit_eq_sequential (K : Kind) (a0 : Appender) (h0 : a0.batches = [])
+    (xs : List (String × Sample))
+    (hK : ∀ p ∈ xs, p.2.kind = K ∧ (K = .f → isStale .f p.2.v = false))
+    (w : Window) (cap : Nat) (acc : CommitAcc) :
+    commitBatches w cap (pushAll a0 xs).batches acc = commitList w cap xs acc := by
+  obtain ⟨f1, f2, f3⟩ := pushAll_flat a0 xs
+  simp only [h0, List.flatMap_nil, List.nil_append] at f1 f2 f3
+  have hall : ∀ K', xs.filter (fun p => p.2.kind = K') = if K' = K then xs else [] := by
+    intro K'
+    by_cases e : K' = K
+    · subst e
+      simp only [if_true]
+      exact List.filter_eq_self.mpr (fun p hp => by simp [(hK p hp).1])
+    · simp only [e, if_false]
+      exact List.filter_eq_nil_iff.mpr (fun p hp => by
+        have := (hK p hp).1
+        simp [this]; exact fun e' => e e'.symm)
+  rw [hall] at f1 f2 f3
+  have hns : ∀ b ∈ (pushAll a0 xs).batches, ∀ p ∈ b.floats, isStale .f p.2.v = false := by
+    intro b hb p hp
+    have hmem : p ∈ (pushAll a0 xs).batches.flatMap (·.floats) := List.mem_flatMap.mpr ⟨b, hb, hp⟩
+    rw [f1] at hmem
+    by_cases e : Kind.f = K
+    · simp only [e, if_true] at hmem
+      exact (hK p hmem).2 e.symm
+    · simp [e] at hmem
+  rw [commitBatches_single _ _ _ _ hns]
+  cases K with
+  | f =>
+    simp at f1 f2 f3
+    rw [foldl_only w cap _ acc (·.floats), f1]
+    intro b hb acc'
+    simp [f2 b hb, f3 b hb, commitList]
+  | h =>
+    simp at f1 f2 f3
+    rw [foldl_only w cap _ acc (·.hists), f2]
+    intro b hb acc'
+    simp [f1 b hb, f3 b hb, commitList]
+  | fh =>
+    simp at f1 f2 f3
+    rw [foldl_only w cap _ acc (·.fhists), f3]
+    intro b hb acc'
+    simp [f1 b hb, f2 b hb, commitList]
+
+/-- …and per series the result is the left fold of the one-sample commit over that series' samples in
+    append order, independent of the other series. -/
+theorem commit_eq_sequential_series (K : Kind) (a0 : Appender) (h0 : a0.batches = [])
+    (xs : List (String × Sample))
+    (hK : ∀ p ∈ xs, p.2.kind = K ∧ (K = .f → isStale .f p.2.v = false))
+    (w : Window) (cap : Nat) (acc : CommitAcc) (n : String) :
+    (commitBatches w cap (pushAll a0 xs).batches acc).store.get n =
+      seqSeries w cap (acc.store.get n) (samplesFor n xs) := by
+  rw [commit_eq_sequential K a0 h0 xs hK, commitList_get]
+
+example : ∀ p ∈ [("a", (⟨10, .h, 1⟩ : Sample)), ("a", ⟨10, .h, 2⟩), ("b", ⟨5, .h, 4⟩)],
+    p.2.kind = Kind.h ∧ (Kind.h = .f → isStale .f p.2.v = false) := by decide
+
 end Prom.C02
